@@ -601,3 +601,16 @@ Fixpoint c09_guard_trace (s : vsock) (ops : list vop) : bool :=
   end.
 
 End Guard.
+
+(* the guard of a whole scenario for the CUBIC instance (what the correspondence check can evaluate
+   on the inputs of a metamorphic case: it needs the construction parameters and the op list only) *)
+Section CubicGuard.
+Variable cbrt : Cubic.F64.f64 -> Cubic.F64.f64.
+Variable powf3 : Cubic.F64.f64 -> Cubic.F64.f64.
+
+Definition c09_guard_trace_cubic (c : vconfig) (ops : list vop) : bool :=
+  match vsock_new_cubic cbrt powf3 c with
+  | Some s => c09_guard_trace (cubic_iface cbrt powf3) s ops
+  | None => true
+  end.
+End CubicGuard.
